@@ -77,26 +77,44 @@ theorem f64_div_spec (m a b : Int) (hb : b ≠ 0) (hp : fits64 (a * m)) (hq : fi
 theorem f128_div_spec (m a b : Int) (hbf : fits128 b) (hb : b ≠ 0) (hp : fits128 (a * m))
     (hq : fits128 ((a * m).tdiv b)) : F128.div m a b = some ((a * m).tdiv b) := F128.div_eq hbf hb hp hq
 
-/-- division by zero is a Go panic (`none`) in both implementations — never a wrong number -/
+/-- division by zero is a Go panic (`none`) in both implementations — never a wrong number.  (Near-definitional on the
+    model: the guard is written in `F64.div` / `F64.mod` …; its weight comes from the differential run, where the Go
+    code must panic on exactly these lines, and from the translator ties of Props/C03Gen*.lean.) -/
 theorem div_zero_panics (m a : Int) : F64.div m a 0 = none ∧ F128.div m a 0 = none ∧
     F64.mod m a 0 = none ∧ F128.mod m a 0 = none := by
   simp [F64.div, F128.div, F64.mod, F128.mod]
 
-/-- f64 `Mod` = `a − b·trunc(a/b)` (the truncated remainder, sign of the dividend); the inner product
-    `b·Trunc(a/b)` is shown representable from the hypotheses, so only those of `Div` are needed -/
-theorem f64_mod_spec (m a b : Int) (hm : Mult m) (ha : fits64 a) (hb : b ≠ 0) (hp : fits64 (a * m))
-    (hq : fits64 ((a * m).tdiv b)) : F64.mod m a b = some (a - b * a.tdiv b) := by
-  rw [F64.mod_eq hm ha hb hp hq]
+/-- f64 `Mod` = `a − b·trunc(a/b)` (the truncated remainder, sign of the dividend) for EVERY dividend and every
+    non-zero divisor: the property grants the intermediate-product hypothesis to Mul and Div only, the exact result of
+    Mod always fits, and since the fix "Mod computes the remainder directly" (`f % value`) no hypothesis beyond `b ≠ 0`
+    is needed (`fits64 a` only says that `a` is a raw value of the type) -/
+theorem f64_mod_spec (m a b : Int) (ha : fits64 a) (hb : b ≠ 0) : F64.mod m a b = some (a - b * a.tdiv b) := by
+  rw [F64.mod_tmod ha hb]
   have := Int.tmod_add_tdiv_mul a b
   have e : a.tdiv b * b = b * a.tdiv b := Int.mul_comm _ _
   congr 1; omega
-/-- f128 `Mod` -/
-theorem f128_mod_spec (m a b : Int) (hm : Mult m) (ha : fits128 a) (hbf : fits128 b) (hb : b ≠ 0)
-    (hp : fits128 (a * m)) (hq : fits128 ((a * m).tdiv b)) : F128.mod m a b = some (a - b * a.tdiv b) := by
-  rw [F128.mod_eq hm ha hbf hb hp hq]
+/-- f128 `Mod` (`Int128.Mod` of the raw values): the same, for every pair of raw values with `b ≠ 0` -/
+theorem f128_mod_spec (m a b : Int) (ha : fits128 a) (hbf : fits128 b) (hb : b ≠ 0) :
+    F128.mod m a b = some (a - b * a.tdiv b) := by
+  rw [F128.mod_tmod ha hbf hb]
   have := Int.tmod_add_tdiv_mul a b
   have e : a.tdiv b * b = b * a.tdiv b := Int.mul_comm _ _
   congr 1; omega
+
+/-- the result of `Mod` is always representable (no hypothesis needed): it lies between 0 and the dividend -/
+theorem mod_result_fits (a b : Int) :
+    (fits64 a → fits64 (a - b * a.tdiv b)) ∧ (fits128 a → fits128 (a - b * a.tdiv b)) ∧
+    (0 ≤ a → 0 ≤ a - b * a.tdiv b ∧ a - b * a.tdiv b ≤ a) ∧ (a ≤ 0 → a ≤ a - b * a.tdiv b ∧ a - b * a.tdiv b ≤ 0) := by
+  have h := Int.tmod_add_tdiv_mul a b
+  have e : a.tdiv b * b = b * a.tdiv b := Int.mul_comm _ _
+  have e2 : a - b * a.tdiv b = a.tmod b := by omega
+  rw [e2]
+  exact ⟨fits64_tmod, fits128_tmod, (tmod_between a b).1, (tmod_between a b).2⟩
+
+/-- the corner Go defines specially: `MinInt64 % -1 = 0` (no overflow panic), and the same for the 128-bit minimum -/
+theorem mod_min_by_minus_one (m : Int) :
+    F64.mod m F64.minRaw (-1) = some 0 ∧ F128.mod m F128.minRaw (-1) = some 0 := by
+  constructor <;> (simp only [F64.mod, F128.mod]; decide)
 
 /-! ## Trunc / Ceil / Round -/
 
@@ -154,7 +172,10 @@ theorem f128_abs_spec (a : Int) (h : fits128 (-a)) : F128.abs a = |a| := F128.ab
 /-- f128 `Neg` -/
 theorem f128_neg_spec (a : Int) (ha : fits128 a) (h : fits128 (-a)) : F128.neg a = -a := F128.neg_eq h ha
 
-/-- `Min` / `Max` are the minimum / maximum of the raw values (hence of the values, `m > 0`) -/
+/-- `Min` / `Max` are the minimum / maximum of the raw values (hence of the values, `m > 0`).  (Near-definitional on the
+    Int-level model, which writes the same `if`; the content is carried by the differential run against the Go code —
+    operands across the extremes included — and, for f128, by the translator tie Props/C03Gen128.lean down to the
+    word-level comparisons proved in C01.) -/
 theorem min_max_spec (a b : Int) :
     F64.min a b = min a b ∧ F64.max a b = max a b ∧ F128.min a b = min a b ∧ F128.max a b = max a b :=
   ⟨F64.min_eq a b, F64.max_eq a b, F128.min_eq a b, F128.max_eq a b⟩
@@ -165,7 +186,10 @@ theorem inc_dec_spec (m a : Int) :
     (fits128 (a + m) → F128.inc m a = a + m) ∧ (fits128 (a - m) → F128.dec m a = a - m) :=
   ⟨F64.inc_eq, F64.dec_eq, F128.inc_eq, F128.dec_eq⟩
 
-/-- f128 comparisons agree with the order of the raw values (f64 comparisons are Go's built-in operators) -/
+/-- f128 comparisons agree with the order of the raw values (f64 comparisons are Go's built-in operators).
+    (Near-definitional here: the model states `Int128.Cmp/LessThan/…` by their contract on mathematical integers; that
+    the word-level code meets the contract is `F128_Int_Cmp_eq` … of Props/C03Gen128.lean together with C01.icmp_spec,
+    and the differential run.) -/
 theorem f128_cmp_spec (a b : Int) :
     (F128.cmp a b = -1 ↔ a < b) ∧ (F128.cmp a b = 0 ↔ a = b) ∧ (F128.cmp a b = 1 ↔ a > b) ∧
     (F128.lt a b = true ↔ a < b) ∧ (F128.le a b = true ↔ a ≤ b) ∧ (F128.gt a b = true ↔ a > b) ∧
@@ -431,15 +455,16 @@ theorem div_rational (m a b : Int) (hm : Mult m) (hb : b ≠ 0) :
   · intro hp hq; rw [F64.div_eq hb hp hq, div_value m a b hm.pos hb]
   · intro hbf hp hq; rw [F128.div_eq hbf hb hp hq, div_value m a b hm.pos hb]
 
-/-- `Mod` returns `x − y·trunc(x/y)` on the rational values (both implementations) -/
+/-- `Mod` returns `x − y·trunc(x/y)` on the rational values for ALL operands with a non-zero divisor (both
+    implementations) -/
 theorem mod_rational (m a b : Int) (hm : Mult m) (hb : b ≠ 0) :
-    (fits64 a → fits64 (a * m) → fits64 ((a * m).tdiv b) →
+    (fits64 a →
       ∃ r, F64.mod m a b = some r ∧ value m r = value m a - value m b * truncQ (value m a / value m b)) ∧
-    (fits128 a → fits128 b → fits128 (a * m) → fits128 ((a * m).tdiv b) →
+    (fits128 a → fits128 b →
       ∃ r, F128.mod m a b = some r ∧ value m r = value m a - value m b * truncQ (value m a / value m b)) := by
   constructor
-  · intro ha hp hq; exact ⟨_, F64.mod_eq hm ha hb hp hq, mod_value m a b hm.pos hb⟩
-  · intro ha hbf hp hq; exact ⟨_, F128.mod_eq hm ha hbf hb hp hq, mod_value m a b hm.pos hb⟩
+  · intro ha; exact ⟨_, F64.mod_tmod ha hb, mod_value m a b hm.pos hb⟩
+  · intro ha hbf; exact ⟨_, F128.mod_tmod ha hbf hb, mod_value m a b hm.pos hb⟩
 
 /-- `Trunc`, `Ceil`, `Round` return the whole number toward zero, toward +∞, and nearest with halves away from
     zero of the rational value (f64) -/
@@ -482,6 +507,9 @@ example : Mult 100 := ⟨(2, 100), by decide, rfl⟩
 example : AllFit64Bin 100 .mod (-700) 300 := by simp [AllFit64Bin, fits64]
 example : F64.round 100 (-150) = -200 ∧ F128.round 100 (-150) = -200 ∧ F64.round 100 (-50) = -100 := by decide
 example : F64.mod 100 (-700) 300 = some (-100) ∧ F128.mod 100 (-700) 300 = some (-100) := by decide
+/-- the inputs of the repaired defect: D2, `From(10^16).Mod(From(3))` = 1 and `10^36 mod 7` = 1 (raw 100), where
+    `a·10^D` does not fit -/
+example : F64.mod 100 (10 ^ 18) 300 = some 100 ∧ F128.mod 100 (10 ^ 38) 700 = some 100 := by decide
 /-- the float hypotheses are satisfiable: 0.29 (bits 3fd28f5c28f5c28f) at D2 is raw 28 in f64 (the rounded product is
     28.999999999999996) and raw 29 in f128 (the expansion 0.28999…98 rounded at three digits is 0.290) -/
 example : F64.fromFloat 100 (GoSem.F64.decode 0x3fd28f5c28f5c28f) = .ok 28 ∧
